@@ -304,6 +304,15 @@ func checkC02(c *Ctx, r *Report) {
 			for _, s := range sites {
 				isSite[s] = true
 			}
+			// an edge into a block that only merges a named condition (`skipped := !started && errors.Is(…)` … `if skipped`)
+			// and branches on it: when the merged value is a constant on this edge, only that branch is taken
+			push := func(pred, s *ssa.BasicBlock, st int) {
+				if t := constPhiBranch(pred, s); t != nil {
+					work = append(work, node{t, 0, st})
+					return
+				}
+				work = append(work, node{s, 0, st})
+			}
 			for len(work) > 0 {
 				n := work[len(work)-1]
 				work = work[:len(work)-1]
@@ -336,10 +345,10 @@ func checkC02(c *Ctx, r *Report) {
 				if ifi, ok := lastInstr(n.b).(*ssa.If); ok {
 					if g, sidx := gatePolarity(ifi, wi); g {
 						if st != 2 {
-							work = append(work, node{n.b.Succs[sidx], 0, 1})
+							push(n.b, n.b.Succs[sidx], 1)
 						}
 						if st != 1 {
-							work = append(work, node{n.b.Succs[1-sidx], 0, 2})
+							push(n.b, n.b.Succs[1-sidx], 2)
 						}
 						continue
 					}
@@ -368,7 +377,7 @@ func checkC02(c *Ctx, r *Report) {
 								}
 								ns = implied
 							}
-							work = append(work, node{n.b.Succs[si], 0, ns})
+							push(n.b, n.b.Succs[si], ns)
 						}
 						if handled {
 							continue
@@ -377,7 +386,7 @@ func checkC02(c *Ctx, r *Report) {
 					}
 				}
 				for _, s := range n.b.Succs {
-					work = append(work, node{s, 0, st})
+					push(n.b, s, st)
 				}
 			}
 			if len(bad) > 0 {
@@ -740,4 +749,48 @@ func wrapHelperOperand(cc *ssa.CallCommon) ssa.Value {
 		}
 	}
 	return cc.Args[idx]
+}
+
+// constPhiBranch: block m consists of boolean phis and an `if` on one of them (possibly negated); on the edge from pred
+// that phi is a constant. Returns the successor of m that is taken then, nil if the shape does not apply.
+func constPhiBranch(pred, m *ssa.BasicBlock) *ssa.BasicBlock {
+	if len(m.Instrs) < 2 {
+		return nil
+	}
+	ifi, ok := m.Instrs[len(m.Instrs)-1].(*ssa.If)
+	if !ok {
+		return nil
+	}
+	for _, in := range m.Instrs[:len(m.Instrs)-1] {
+		if _, isPhi := in.(*ssa.Phi); !isPhi {
+			return nil
+		}
+	}
+	v, neg := ifi.Cond, false
+	for {
+		if u, isU := v.(*ssa.UnOp); isU && u.Op == token.NOT {
+			v, neg = u.X, !neg
+			continue
+		}
+		break
+	}
+	ph, ok := v.(*ssa.Phi)
+	if !ok || ph.Block() != m {
+		return nil
+	}
+	for i, p := range m.Preds {
+		if p != pred || i >= len(ph.Edges) {
+			continue
+		}
+		k, isK := ph.Edges[i].(*ssa.Const)
+		if !isK || k.Value == nil {
+			return nil
+		}
+		val := k.Value.String() == "true"
+		if val != neg {
+			return m.Succs[0]
+		}
+		return m.Succs[1]
+	}
+	return nil
 }
